@@ -117,6 +117,6 @@ theorem C16_offsets_shared_element_counterexample :
     [.node 2 "storyID" [] (some "A") none [],
      .node 3 "mosExternalMetadata" [] none none
        [.node 4 "mosPayload" [] none none [.node 5 "StoryDuration" [] (some "10") none []]]]
-  exact ⟨[a, a], [(1, 0), (1, 80)], by rfl, by decide⟩
+  exact ⟨[a, a], [(1, 0), (1, 10000000)], by rfl, by decide⟩
 
 end Mrm
